@@ -309,5 +309,5 @@ Definition loud (e : eff) : bool :=
 Definition quiet (t : list eff) : Prop := forallb (fun e => negb (loud e)) t = true.
 (* effects a @pure function must never produce *)
 Definition impure (e : eff) : bool :=
-  match e with EnvRead | StateRead | MsgValueRead => true | _ => loud e end.
+  match e with EnvRead | StateRead | MsgValueRead | Write _ _ => true | _ => loud e end.
 Definition silent (t : list eff) : Prop := forallb (fun e => negb (impure e)) t = true.
